@@ -4,6 +4,15 @@ import json
 import subprocess
 
 CLAIMED = {
+    "C18": dict(level="exploration",
+                text="Seeded search over file histories of one long-lived simulated process: 2-4 sources per invocation (golden sources, "
+                     "golden sources cut at a random line so that constructs stay open, generated state-setters) checked file by file "
+                     "(code file, per-file diagnostics log, exit status) for refinement against the state-free reference model 'the same "
+                     "file alone in a fresh process'; every golden source after itself and every setter statement before every probe are "
+                     "enumerated systematically.",
+                note="Trusted: simrt; options are shared by a history, so only golden programs with equal asflags are combined.",
+                technique="deterministic simulation: history refinement against a fresh-process reference model",
+                design="4. C18"),
     "C17": dict(level="exploration",
                 text="Seeded search over the simulator's environment seams: for every golden program and generated programs one reference "
                      "run and perturbed runs (report-option subsets from the property's list, option placement argv/ASCMD/key file, LANG, "
@@ -45,7 +54,7 @@ NA_PURE = {
     "C16": "metamorphic relation over source spelling; CR-LF/INCLUDE variants are different inputs, not schedules or faults",
     "C20": "diagnostic positions are a pure function of include/macro nesting of the input; no clock, fault or cross-file history involved",
 }
-PENDING = {k: "claimed in DESIGN.md; its check is still being built in this commit series" for k in ("C01", "C04", "C18", "C19")}
+PENDING = {k: "claimed in DESIGN.md; its check is still being built in this commit series" for k in ("C01", "C04", "C19")}
 
 ORDER = ["C01", "C02", "C03", "C04", "C17", "C18", "C19"]
 
